@@ -127,6 +127,11 @@ class Prop(BaseProp):
         if mod.module_doc is not None:
             lay_ind = rng.choice(["", "", " ", "  ", "\t", "    "])
         text = render(mod, lay)
+        if mod.module_doc is None and rng.random() < 0.08:
+            # a first line that, in a Python source file, would declare another encoding: here it is a comment like any other
+            text = rng.choice(["# -*- coding: latin-1 -*-\n", "# vim: set fileencoding=cp1252 :\n", "# source transcoding: latin-1 input\n",
+                               "#!/usr/bin/cmake -P\n# coding=iso-8859-15\n"]) + text
+            res.count("files_with_a_python_style_coding_comment")
         if big:
             res.count("large_module_bytes", len(text.encode("utf-8")))
         if mod.module_doc is not None and lay_ind:
